@@ -202,7 +202,13 @@ fn harness_method(did: &str, fragment: &str, salt: u8) -> VerificationMethod {
   }
   let jwk: identity_jose::jwk::Jwk =
     serde_json::from_value(serde_json::json!({"kty":"OKP","crv":"Ed25519","alg":"EdDSA","x": ks::b64(&x)})).unwrap();
-  VerificationMethod::new_from_jwk(CoreDID::parse(did).unwrap(), jwk, Some(fragment)).expect("harness method builds")
+  let mut m = VerificationMethod::new_from_jwk(CoreDID::parse(did).unwrap(), jwk, Some(fragment)).expect("harness method builds");
+  // DID-core allows further properties on a verification method (derived from the salt, not from the tape: the
+  // function is also used to rebuild expected values)
+  if salt % 3 == 1 {
+    m.properties_mut().insert("purpose".to_owned(), Value::from(format!("sim-{salt}")));
+  }
+  m
 }
 
 fn harness_service(did: &str, fragment: &str, n: u32) -> Value {
@@ -1483,6 +1489,43 @@ impl Engine for StorEngine {
     if prop == "C04" && !ctx::has_violation() && ctx::choose(8) == 0 {
       url_component_ids();
     }
+    if prop == "C04" && !ctx::has_violation() && ctx::choose(8) == 0 {
+      lookalike_reference_and_insert();
+    }
+  }
+}
+
+/// A document read from JSON in which a relationship refers to `did?versionId=1#k2` (a look-alike of, but not the
+/// same id as, the method `did#k2` embedded in another relationship). Whatever lookups make of the look-alike, the
+/// checked mutators must not let a second method with the id `did#k2` in.
+fn lookalike_reference_and_insert() {
+  let did = "did:sim:urlids";
+  let embedded = serde_json::to_value(harness_method(did, "k2", 2)).unwrap();
+  let part = ["?versionId=1", "/keys"][ctx::choose(2)];
+  let (r1, r2) = [("authentication", "assertionMethod"), ("assertionMethod", "authentication"), ("keyAgreement", "capabilityInvocation")][ctx::choose(3)];
+  let j = serde_json::json!({"id": did, r1: [format!("{did}{part}#k2")], r2: [embedded]});
+  let Ok(mut doc) = CoreDocument::from_json_value(j) else { return };
+  ctx::stat("probe.lookalike_reference_start_document");
+  let scope: Scope = if ctx::choose(2) == 0 { None } else { Some(ctx::choose(5)) };
+  let accepted = doc.insert_method(harness_method(did, "k2", 3), to_scope(scope)).is_ok();
+  let mut ids: Vec<String> = doc.methods(None).iter().map(|m| m.id().to_string()).collect();
+  ids.sort();
+  let dup = ids.windows(2).any(|w| w[0] == w[1]);
+  let rt = doc
+    .to_json()
+    .map_err(|e| e.to_string())
+    .and_then(|j| CoreDocument::from_json(&j).map_err(|e| format!("own JSON rejected: {e}")));
+  if dup || rt.is_err() {
+    ctx::violation(
+      "C04",
+      "C04.id_uniqueness",
+      "lookalike-reference/two-embedded-methods-share-id",
+      format!(
+        "insert_method({did}#k2) -> {} on a document with {r1}: [\"{did}{part}#k2\"] and {did}#k2 embedded in {r2}: embedded ids {ids:?}, round trip {:?}",
+        if accepted { "Ok" } else { "Err" },
+        rt.err()
+      ),
+    );
   }
 }
 
